@@ -107,12 +107,20 @@ FieldExit(p) == CASE p.kind \in {"proj", "projpat"} -> p.g [] p.kind = "build" -
 \* exactly one label sequence per record type is accepted
 OneSpelling == \A n \in FieldCounts : Cardinality({q \in LabelSeqs(n) : q = Declared(n)}) = 1
 
+(* ---- why an escape matters: the same site run at two witnesses (C01) -------------------------------------------- *)
+(*   let open = fn (p : T) => (let PAT = p in (value, use)) that        -- the result type mentions the skolem           *)
+(*   let (v1, f1) = open V(ints) that   let (v2, f2) = open V(pairs) that   ! exit (f2 v1)                               *)
+(* with ints packed at Int64 and pairs at Int64 * Int64.  The rule rejects every such program (escape) whatever the      *)
+(* nesting path; a checker that accepts one lets `f2 v1` take a pair apart that is an integer: the interpreter is stuck. *)
+CrossPrograms == {[fam |-> "cross", path |-> q] : q \in Paths}
+
 VARIABLES stage, prog
 Init == stage = "pick" /\ prog \in {[pkg |-> k, path |-> <<>>, opener |-> "let", body |-> "exitconst", ctx |-> "root"] : k \in Pkgs}
 Next == stage = "pick" /\ stage' = "done" /\
         \/ prog' \in {g \in Programs : g.pkg = prog.pkg /\ Valid(g)}
         \/ (prog.pkg = "box" /\ prog' \in SealPrograms)
         \/ (prog.pkg = "boxf" /\ prog' \in FieldPrograms)
+        \/ (prog.pkg = "boxf" /\ prog' \in CrossPrograms)
 Spec == Init /\ [][Next]_<<stage, prog>>
 
 \* the rule is a function of the body alone: neither the nesting of the pattern nor the opening construct matters
@@ -122,7 +130,9 @@ AcceptedIsClosed == \A g \in {x \in Programs : Valid(x)} : Verdict(g) = "accept"
 Inv == stage = "pick" => (PathIndependent /\ AcceptedIsClosed /\ SealMonotone /\ OneSpelling)
 
 Report == stage = "done" =>
-  IF "fam" \in DOMAIN prog /\ prog.fam = "field"
+  IF "fam" \in DOMAIN prog /\ prog.fam = "cross"
+  THEN PrintT(<<"REPLAY", ToJson(prog @@ [verdict |-> "escape", exit |-> 0])>>)
+  ELSE IF "fam" \in DOMAIN prog /\ prog.fam = "field"
   THEN PrintT(<<"REPLAY", ToJson(prog @@ [verdict |-> FieldVerdict(prog), exit |-> FieldExit(prog)])>>)
   ELSE IF "fam" \in DOMAIN prog
   THEN PrintT(<<"REPLAY", ToJson(prog @@ [verdict |-> SealVerdict(prog), exit |-> 3])>>)
